@@ -126,9 +126,13 @@ def _strip_comments(text):
     return "\n".join(line.split("--")[0] for line in text.split("\n"))
 
 
-def grep_forbidden():
+def grep_forbidden(prop=None):
+    """forbidden constructs in the Lean sources of one property (its own Model/Props/Generated/
+    Drivers files plus the shared Wire/Val models); all files when prop is None"""
     hits = []
     files = list((LEAN / "Klong").rglob("*.lean")) + list((LEAN / "Drivers").rglob("*.lean"))
+    if prop:
+        files = [f for f in files if f.name.startswith(prop) or f.name in ("Wire.lean", "Val.lean")]
     for f in files:
         for i, line in enumerate(_strip_comments(f.read_text()).split("\n"), 1):
             if FORBIDDEN.search(line):
@@ -161,18 +165,28 @@ class Driver:
         return r.rstrip("\n")
 
     def ask_many(self, lines):
-        """pipelined: write all, then read all (fast path for bulk cases)"""
+        """pipelined: a writer thread feeds the requests while this thread reads the replies
+        (no deadlock however large requests and replies are)"""
+        import threading
+        for l in lines:
+            assert "\n" not in l
+
+        def feed():
+            try:
+                for k in range(0, len(lines), 500):
+                    self.p.stdin.write("\n".join(lines[k:k + 500]) + "\n")
+                    self.p.stdin.flush()
+            except Exception:
+                pass
+        t = threading.Thread(target=feed, daemon=True)
+        t.start()
         out = []
-        CH = 2000
-        for i in range(0, len(lines), CH):
-            chunk = lines[i:i + CH]
-            self.p.stdin.write("\n".join(chunk) + "\n")
-            self.p.stdin.flush()
-            for _ in chunk:
-                r = self.p.stdout.readline()
-                if not r:
-                    raise Infra(f"kdriver {self.model} died")
-                out.append(r.rstrip("\n"))
+        for _ in lines:
+            r = self.p.stdout.readline()
+            if not r:
+                raise Infra(f"kdriver {self.model} died")
+            out.append(r.rstrip("\n"))
+        t.join()
         self.lines += len(lines)
         return out
 
